@@ -674,12 +674,22 @@ func (x *Exec) loopHeader(f *Frame, st *State, b *ssa.BasicBlock, prev *ssa.Basi
 				for _, m := range top.Modifies {
 					mod[m] = true
 				}
+				pre := f.loopPre[b]
 				for _, name := range w0.names() {
-					if mod[name] || name == "svcEpoch" {
+					if name == "svcEpoch" {
 						continue
 					}
 					a, c := w0.get(name), st.world.get(name)
 					if a == nil || c == nil || a == c {
+						continue
+					}
+					if mod[name] {
+						// in modifies: the cut gave it a fresh value if the write-set analysis found a write in the body;
+						// where it found none, the body must indeed leave it alone
+						if pre == nil || pre.get(name) != a {
+							continue
+						}
+						x.oblige(st, "frame", fmt.Sprintf("%s@%s#%d", name, lastName(fkey), k), "", Eq(a, c), "world component "+name+" unchanged by an iteration of the loop (no write to it was found in the loop body, so the cut kept its value)")
 						continue
 					}
 					x.oblige(st, "frame", fmt.Sprintf("%s@%s#%d", name, lastName(fkey), k), "", Eq(a, c), "world component "+name+" unchanged by an iteration of the loop (not in modifies)")
@@ -689,6 +699,10 @@ func (x *Exec) loopHeader(f *Frame, st *State, b *ssa.BasicBlock, prev *ssa.Basi
 		return nil, true
 	}
 	// havoc loop-carried state
+	if f.loopPre == nil {
+		f.loopPre = map[*ssa.BasicBlock]*World{}
+	}
+	f.loopPre[b] = st.world.clone()
 	body := f.inLoop[b]
 	for _, phi := range phis {
 		f.regs[phi] = x.havocLike(st, f.regs[phi], phi.Type(), phi.Comment)
